@@ -710,13 +710,17 @@ func marginList(quick []int) []int {
 	return append(ms, defaultMargin)
 }
 
-// squareJobs: every (w,h) in 0..k*natural on both axes, one job per w.
+// top is the upper end of a requested-size range "k times natural": two pixels further, so that the
+// largest module size k is also seen with an odd and an even leftover.
+func top(k, nat int) int { return k*nat + 2 }
+
+// squareJobs: every (w,h) in 0..k*natural+2 on both axes, one job per w.
 func squareJobs(s *symbol, margin, k int) []job {
 	natW, natH := s.natural(margin)
 	var jobs []job
-	for w := 0; w <= k*natW; w++ {
+	for w := 0; w <= top(k, natW); w++ {
 		j := job{s: s, margin: margin}
-		for h := 0; h <= k*natH; h++ {
+		for h := 0; h <= top(k, natH); h++ {
 			j.reqs = append(j.reqs, pt{w, h})
 		}
 		jobs = append(jobs, j)
@@ -724,24 +728,25 @@ func squareJobs(s *symbol, margin, k int) []job {
 	return jobs
 }
 
-// sweepJobs: one-parameter families through the (w,h) plane up to k*natural, in chunks.
+// sweepJobs: one-parameter families through the (w,h) plane up to k*natural+2, in chunks.
 // fixed lists the values the other axis is held at for the width-only / height-only sweeps.
 func sweepJobs(s *symbol, margin, k int, fixedW, fixedH []int) []job {
 	natW, natH := s.natural(margin)
 	var reqs []pt
 	for _, fh := range fixedH {
-		for w := 0; w <= k*natW; w++ {
+		for w := 0; w <= top(k, natW); w++ {
 			reqs = append(reqs, pt{w, fh})
 		}
 	}
 	for _, fw := range fixedW {
-		for h := 0; h <= k*natH; h++ {
+		for h := 0; h <= top(k, natH); h++ {
 			reqs = append(reqs, pt{fw, h})
 		}
 	}
-	for t := 0; t <= k*natW; t++ {
-		reqs = append(reqs, pt{t, t})                    // diagonal
-		reqs = append(reqs, pt{t, k*natH - t*natH/natW}) // anti-diagonal (one axis grows while the other shrinks)
+	for t := 0; t <= top(k, natW); t++ {
+		reqs = append(reqs, pt{t, t})                          // diagonal
+		reqs = append(reqs, pt{t, t * natH / natW})            // proportional diagonal (differs for rectangular symbols)
+		reqs = append(reqs, pt{t, top(k, natH) - t*natH/natW}) // anti-diagonal (one axis grows while the other shrinks)
 	}
 	for i := range reqs {
 		if reqs[i].h < 0 {
@@ -769,12 +774,12 @@ func runQR() {
 	mdesc := []string{"{0,1,4,5,20,none}", "{0..20,none}"}[mtext]
 
 	if s := qrSymbol(1); s != nil {
-		k := chk.Pick(2, 3)
+		k := 3
 		var jobs []job
 		for _, m := range margins {
 			jobs = append(jobs, squareJobs(s, m, k)...)
 		}
-		runJobs(fmt.Sprintf("QR version 1 (21x21 modules): margin %s x every (width,height) in 0..%d*(21+2*margin) squared", mdesc, k), jobs)
+		runJobs(fmt.Sprintf("QR version 1 (21x21 modules): margin %s x every (width,height) in 0..%d*(21+2*margin)+2 squared", mdesc, k), jobs)
 		chk.Sample("qr", caseRec{s.Name, s.Content, 64, 59, 4})
 	}
 	{
@@ -790,7 +795,7 @@ func runQR() {
 				jobs = append(jobs, sweepJobs(s, m, k, []int{0, 2*natW + 1}, []int{0, 2*natH + 1})...)
 			}
 		}
-		runJobs(fmt.Sprintf("QR versions 2 and 7 (25, 45 modules): margin %s x sweeps to %d*natural: width with height in {0, 2*natural+1}, height with width in {0, 2*natural+1}, diagonal, anti-diagonal", mdesc, k), jobs)
+		runJobs(fmt.Sprintf("QR versions 2 and 7 (25, 45 modules): margin %s x sweeps over 0..%d*natural+2: width with height in {0, 2*natural+1}, height with width in {0, 2*natural+1}, diagonal, anti-diagonal", mdesc, k), jobs)
 	}
 	if s := qrSymbol(40); s != nil {
 		var jobs []job
@@ -820,14 +825,14 @@ func runDM() {
 			jobs = append(jobs, squareJobs(s, defaultMargin, ksq)...)
 		}
 	}
-	name := fmt.Sprintf("Data Matrix 10x10 and 8x18: every (width,height) in 0..%d*natural squared", ksq)
+	name := fmt.Sprintf("Data Matrix 10x10 and 8x18: every (width,height) in 0..%d*natural+2 squared", ksq)
 	if !chk.Quick() {
 		for _, z := range large {
 			if s := syms[z]; s != nil {
 				jobs = append(jobs, squareJobs(s, defaultMargin, 3)...)
 			}
 		}
-		name += "; 16x48, 32x32, 52x52: every (width,height) in 0..3*natural squared"
+		name += "; 16x48, 32x32, 52x52: every (width,height) in 0..3*natural+2 squared"
 	}
 	runJobs(name, jobs)
 	if s := syms[size{8, 18}]; s != nil {
@@ -843,7 +848,7 @@ func runDM() {
 		}
 		jobs = append(jobs, sweepJobs(s, defaultMargin, k, []int{0, s.nx - 1, s.nx, 2*s.nx + 1, k * s.nx}, []int{0, s.ny - 1, s.ny, 2*s.ny + 1, k * s.ny})...)
 	}
-	runJobs(fmt.Sprintf("Data Matrix 16x48, 32x32, 52x52: sweeps to %d*natural: width with height in {0, n-1, n, 2n+1, %dn}, height with width likewise, diagonal, anti-diagonal", k, k), jobs)
+	runJobs(fmt.Sprintf("Data Matrix 16x48, 32x32, 52x52: sweeps over 0..%d*natural+2: width with height in {0, n-1, n, 2n+1, %dn}, height with width likewise, diagonal, proportional diagonal, anti-diagonal", k, k), jobs)
 }
 
 func runOneD() {
@@ -862,7 +867,7 @@ func runOneD() {
 				nat, _ := s.natural(m)
 				for _, h := range heights {
 					var reqs []pt
-					for w := 0; w <= k*nat; w++ {
+					for w := 0; w <= top(k, nat); w++ {
 						reqs = append(reqs, pt{w, h})
 						if len(reqs) == 128 {
 							jobs = append(jobs, job{s, m, reqs})
@@ -879,7 +884,7 @@ func runOneD() {
 			}
 		}
 	}
-	runJobs(fmt.Sprintf("1-D: 9 writers (EAN-13, EAN-8, UPC-A, UPC-E, Code 39, Code 93, Code 128, ITF, Codabar) x 2 contents x margin %s x height {0,1,2,37} x every width 0..%d*(modules+margin)", mdesc, k), jobs)
+	runJobs(fmt.Sprintf("1-D: 9 writers (EAN-13, EAN-8, UPC-A, UPC-E, Code 39, Code 93, Code 128, ITF, Codabar) x 2 contents x margin %s x height {0,1,2,37} x every width 0..%d*(modules+margin)+2", mdesc, k), jobs)
 }
 
 // ------------------------------------------------------------------ main / replay
